@@ -27,6 +27,16 @@ theorem entry_points_never_panic (h : Handler) (now : Nat) (req : Request) (hi :
   · rw [(interceptRequest_eq h now req hi).2.1]; exact coreRequest_never_panics _ _ _
   · rw [(interceptResponse_eq h now req hi).2.1]; exact coreResponse_never_panics _ _ _
 
+/-- the error values of the model carry the codes the source's constructors carry
+(`HandlingErrorCode.*` is regenerated from `src/error.rs` on every run) -/
+theorem error_codes_match_source :
+    (internal : HRes Unit) = .herr HandlingErrorCode.internal ∧
+    (badRequest : HRes Unit) = .herr HandlingErrorCode.badRequest ∧
+    (notHandled : HRes Unit) = .herr HandlingErrorCode.notHandled ∧
+    (∀ rt, HandlingErrorCode.notFound = some rt → MessageClass.toU8 (.Response rt) ≥ 0x80) ∧
+    (∀ rt, HandlingErrorCode.methodNotSupported = some rt → MessageClass.toU8 (.Response rt) ≥ 0x80) := by
+  refine ⟨rfl, rfl, rfl, ?_, ?_⟩ <;> intro rt h <;> cases h <;> decide
+
 /-- a situation the handler cannot serve is a handling error that can be
 rendered as a 4.xx/5.xx reply: coded errors are 4.00 or 5.00; the code-less
 `not_handled` occurs only when no reply was prepared (nothing to render into) -/
